@@ -14,11 +14,12 @@ echo "ctest with patch: $T"
 build_demo
 BIN=$(echo "$CMD" | sed -nE 's/.* -o ([^ ]+).*/\1/p'); [ -z "$BIN" ] && BIN=$O/work/demo$N
 case $BIN in /*) ;; *) BIN=$W/$BIN;; esac
-mkdir -p $O/run; (cd $O/run && timeout 120 $BIN >/dev/null 2>&1); RC1=$?
+RUN=""; head -60 $O/demo$N.c | grep -q "valgrind" && RUN="valgrind -q --error-exitcode=1"
+mkdir -p $O/run; (cd $O/run && timeout 300 $RUN $BIN >/dev/null 2>&1); RC1=$?
 echo "demo with patch rc=$RC1"
 git checkout -q -- . ; ninja -C _build >/dev/null 2>&1
 build_demo
-(cd $O/run && timeout 120 $BIN >/dev/null 2>&1); RC0=$?
+(cd $O/run && timeout 300 $RUN $BIN >/dev/null 2>&1); RC0=$?
 echo "demo without patch rc=$RC0"
 case "$T" in 100%*) ;; *) echo "RESULT: REJECT (ctest)"; exit 1;; esac
 if [ $RC1 -ne 0 ] && [ $RC0 -eq 0 ]; then echo "RESULT: CONFIRMED"; else echo "RESULT: REJECT (demo)"; exit 1; fi
